@@ -207,7 +207,9 @@ static const char* ALPHA62 = "0123456789ABCDEFGHIJKLMNOPQRSTUVWXYZabcdefghijklmn
 static void case_set_str(ByteSource& in, CaseInfo& ci) {
   int base = (int)in.range(2, 62); if (in.chance(100)) base = in.flag() ? 10 : 16; bool decexp = in.chance(90); Dest d; gen_dest(in, d, ci); uint64_t p = d.p;
   size_t nint = (size_t)in.range(1, 30), nfr = in.flag() ? 0 : (size_t)in.range(1, 30); if (in.chance(40)) { nint = (size_t)in.range(1, 200); }
+  bool tz = in.chance(50); if (tz) { nint = (size_t)in.range(1, 6); nfr = (size_t)in.range(1, 400); }   // a short number followed by a long fraction of zeros ("7.000...0"): the value is a small integer
   std::vector<unsigned> dig(nint + nfr); for (auto& x : dig) x = (unsigned)in.range(0, base - 1); if (in.chance(60)) for (size_t i = 0; i + 1 < nint; i++) dig[i] = 0;   // leading zeros
+  if (tz) { size_t keep = in.flag() ? 0 : (size_t)in.range(0, std::min<size_t>(nfr, 3)); for (size_t i = nint + keep; i < nint + nfr; i++) dig[i] = 0; ci.label("set_str:long_zero_fraction"); }
   bool neg = in.flag(); long N = in.flag() ? 0 : (long)in.srange(-60, 60); bool hasexp = N != 0 || in.flag();
   auto dch = [&](unsigned v) { char c = ALPHA62[v]; if (base <= 36 && v >= 10) c = in.flag() ? (char)('a' + v - 10) : (char)('A' + v - 10); return c; };
   std::string s; if (in.chance(60)) s += ' '; if (neg) s += '-'; for (size_t i = 0; i < nint; i++) s += dch(dig[i]); if (nfr) { s += '.'; for (size_t i = 0; i < nfr; i++) s += dch(dig[nint + i]); }
@@ -284,6 +286,6 @@ static void sweep_item(uint64_t i, CaseInfo& ci) {
 namespace eng {
 PropDef g_prop = {"C13",
   "Cases: one call of mpf_add/sub/mul/div/sqrt and their _ui forms, mpf_set_q/set_z/set_d, mpf_set_str, the default-precision family (mpf_set_default_prec then mpf_init_set/_ui/_si/_d/_str, mpf_inits: precision >= default, same value rules), mpf_floor/ceil/trunc/neg/abs/mul_2exp/div_2exp, mpf_get_str. Destination precision 1..2000 bits chosen independently of the operand precisions (shorter and longer), reached directly, through mpf_set_prec after another value, or through mpf_set_prec_raw (restored afterwards); the destination may alias an operand; operands are built limb by limb (up to prec+1 limbs, low zero limbs, all ones, single bit), with exponent relations no overlap / partial / full / far apart and nearly cancelling pairs for add/sub. Oracle: an mpf value is the exact dyadic rational mantissa*2^(64*(exp-size)) in refint; with p = mpf_get_prec(rop): |result-exact| < 2^(2-p)*|exact| (sqrt by squaring both bounds), result == exact whenever the operands and the exact value each fit in p bits, exact functions compared exactly, mpf_get_str: at most n_digits digits, no trailing zeros, right alphabet, value within one unit of the last requested digit (n_digits never exceeds what the precision carries); the format rules (|size| <= prec+1, top limb non-zero, zero has exponent 0) after every call. Non-trivial: non-zero first operand. Distinct = hash of all decoded choices.",
-  check, nullptr, {"exact_clause", "bound_clause", "result_truncated", "near_cancellation", "ui_operand_nearly_cancels", "x+1|000_minus_x|fff", "exponents_far_apart", "low_zero_limbs", "operand_longer_than_prec_raw", "dest:set_prec", "dest:set_prec_raw", "dest_aliases_operand", "get_str:fewer_digits_than_requested"}, fixed_case, sweep_count, sweep_item,
+  check, nullptr, {"exact_clause", "bound_clause", "result_truncated", "near_cancellation", "ui_operand_nearly_cancels", "x+1|000_minus_x|fff", "exponents_far_apart", "low_zero_limbs", "set_str:long_zero_fraction", "operand_longer_than_prec_raw", "dest:set_prec", "dest:set_prec_raw", "dest_aliases_operand", "get_str:fewer_digits_than_requested"}, fixed_case, sweep_count, sweep_item,
   "every pair of mpf operands with a mantissa of up to two limbs from {0,1,2^63-1,2^63,2^64-2,2^64-1}, exponent in {-1,0,1,3} limbs and either sign (288 x 288), into a 64-bit and a 128-bit destination: mpf_add, sub, mul, div; with the six palette values as unsigned long: add_ui, sub_ui, ui_sub, mul_ui, div_ui, ui_div (2^(2-p) bound, exactness clause, format rules)"};
 }
